@@ -32,6 +32,7 @@ import KinModel.Lemmas.C20Load
 import KinModel.Gen.C20Types
 import KinModel.Gen.C20Loader
 import KinModel.LoadDoc
+import KinModel.Gen.C20Guards
 
 namespace KinModel.Props.C20
 open KinModel.LoadSafety KinModel.LoadTypes
@@ -643,6 +644,64 @@ theorem nonvacuous_document :
      | _ => false) = true := by
   decide +kernel
 
+/-! ### typed decoding, the certain part (round 5): where a typed position of the root document holds a JSON kind its
+Go type never accepts, the load ends with an error before any reference is resolved — no stage ends abnormally -/
+
+/-- full strength, every configuration and document set: a certain decoding misfit makes the model's load an error,
+    no exclusion class holds and no stage is abnormal (the crash classes need a loaded document) -/
+theorem decode_misfit_fails_load (cfg : Cfg) (ds : Docs) (h : decodeMisfit (docPositions ds.root) = true) :
+    (outcome cfg ds).load = .err ∧ (outcome cfg ds).abnormal = specAbnormal ∧ (outcome cfg ds).excl = [] := by
+  simp [outcome, h, specAbnormal, unresolvedHit, unwalkedHit]
+
+/-- without a misfit the load outcome is the loader model's -/
+theorem decode_fit_load (cfg : Cfg) (ds : Docs) (h : decodeMisfit (docPositions ds.root) = false) :
+    (outcome cfg ds).load = (build cfg ds).load := by
+  simp [outcome, h]
+
+/-- table obligations: every entry of the regenerated list of plain scalar fields is a tagged field of the struct
+    table whose structural type is a scalar or a pointer to one; the fields the differential run met are in it -/
+theorem plain_scalars_are_scalar_fields :
+    Gen.c20PlainScalars.all (fun s => Gen.c20Fields.any (fun f => f.owner ++ "." ++ f.tag == s && (f.ty == .scalar || f.ty == .ptr .scalar))) = true := by
+  decide +kernel
+
+/-- the kind list names exactly the plain scalar fields, with one of the three kinds each -/
+theorem scalar_kinds_cover :
+    Gen.c20ScalarKinds.map (·.1) = Gen.c20PlainScalars ∧
+    Gen.c20ScalarKinds.all (fun r => r.2 == "string" || r.2 == "bool" || r.2 == "num") = true := by
+  decide +kernel
+
+theorem plain_scalars_cover :
+    ["T.openapi", "Info.title", "Info.version", "Info.description", "Response.description"].all Gen.c20PlainScalars.contains = true := by
+  decide +kernel
+
+/-- the composition cycle of finding CompositionCycle below an `info.version` that is an object: the real load fails
+    in the typed decoding (`cannot unmarshal object into field Info.version of type string`), and so does the model's
+    (before round 5 the model loaded the document and predicted the crash of Validate) -/
+def dCompositionMisfit : JV := .obj [("openapi", .str "3.0.0"), ("info", .obj [("title", .str "t"), ("version", .obj [])]),
+  ("components", .obj [("schemas", .obj [("A", .obj [("type", .str "object"),
+  ("allOf", .arr [.obj [("$ref", .str "#/components/schemas/A")]]), ("default", .obj [])])])]), ("paths", .obj [])]
+
+theorem decode_misfit_witness :
+    decodeMisfit (docPositions dCompositionMisfit) = true ∧ (outcome codeCfg (mkDs dCompositionMisfit)).load = .err ∧
+    (outcome codeCfg (mkDs dCompositionMisfit)).excl = [] ∧
+    -- each rule: array at a map, string at an object struct, number at a wrapper, object at a pointer to a scalar
+    decodeMisfit (docPositions (.obj [("components", .obj [("schemas", .arr [])])])) = true ∧
+    decodeMisfit (docPositions (.obj [("paths", .str "x")])) = true ∧
+    -- a number at a string, a string at a number, a string at a bool
+    decodeMisfit (docPositions (.obj [("info", .obj [("version", .num "1")])])) = true ∧
+    decodeMisfit (docPositions (.obj [("components", .obj [("schemas", .obj [("S", .obj [("minLength", .str "3")])])])])) = true ∧
+    decodeMisfit (docPositions (.obj [("components", .obj [("schemas", .obj [("S", .obj [("nullable", .str "x")])])])])) = true ∧
+    decodeMisfit (docPositions (.obj [("components", .obj [("headers", .obj [("H", .num "1")])])])) = true ∧
+    decodeMisfit (docPositions (.obj [("components", .obj [("responses", .obj [("R", .obj [("description", .obj [])])])])])) = true := by
+  decide +kernel
+
+/-- non-vacuity of the other side: the witness of CompositionCycle itself, null members, a wrapper written as a
+    reference, a boolean `additionalProperties` and a `type` written as a string are no misfit -/
+example : decodeMisfit (docPositions dComposition) = false ∧
+    decodeMisfit (docPositions (.obj [("info", .null), ("paths", .obj [("/a", .null)]), ("components", .obj [("schemas", .obj [
+      ("A", .obj [("$ref", .str "#/x")]), ("B", .obj [("type", .str "object"), ("additionalProperties", .bool true), ("example", .arr [])])])])])) = false := by
+  decide +kernel
+
 end Documents
 
 /-! ## obligations over the regenerated tables -/
@@ -724,6 +783,50 @@ theorem deref_cycles_guarded :
     acyclicB Gen.c20DerefCalls = false ∧
     Gen.c20DerefGuards = [("derefSchema", "isVisitedSchema"), ("derefHeaders", "isVisitedHeader"), ("derefPaths", "isVisitedPathItem")] := by
   decide
+
+/-! ### side conditions read from the whole package (round 5, table C20Guards) -/
+
+/-- every type assertion of package openapi3 outside a type switch is in comma-ok form, except the three reviewed ones:
+    `ReferencesComponentInRootDocument` (reflect over a `Components` field: map keys are strings, values implement
+    ComponentRef by the struct table) and `drillIntoField` (field 0 named `Extensions` has type map[string]any:
+    `c20ExtensionsFirst`). A new unchecked assertion — e.g. on a decoded `example` — breaks this obligation. -/
+theorem type_asserts_checked :
+    Gen.c20TypeAsserts.filter (fun r => r.2.2 != "commaok") =
+      [("ReferencesComponentInRootDocument", "string", "unchecked"), ("ReferencesComponentInRootDocument", "ComponentRef", "unchecked"),
+       ("drillIntoField", "map[string]any", "unchecked")] := by
+  decide +kernel
+
+/-- the decoding of a schema and the value validator assert only in comma-ok form (the functions the typed-value block
+    of the differential run reaches) -/
+theorem schema_asserts_comma_ok :
+    (Gen.c20TypeAsserts.filter (fun r => r.1.startsWith "Schema.")).all (fun r => r.2.2 == "commaok") = true ∧
+    (Gen.c20TypeAsserts.any (fun r => r.1 == "Schema.UnmarshalJSON")) = true := by
+  decide +kernel
+
+/-- lock discipline of the process-wide reader cache (URIMapCache, the only place of the package that takes a lock):
+    on every way out of the function nothing is held, and no statement shape was left unread -/
+theorem locks_released_on_every_path :
+    Gen.c20LockPaths.all (fun r => r.2.2 == "") = true ∧ Gen.c20LockPaths.length ≥ 4 ∧
+    Gen.c20LockPaths.all (fun r => r.1.startsWith "URIMapCache.") = true := by
+  decide +kernel
+
+/-- a reader that releases on every path what it acquired leaves the lock as it found it after any history of reads:
+    `held` after a sequence of calls, each of which ends on one of its balanced paths -/
+def locksAfter (held : Nat) : List (Nat × Nat) → Nat
+  | [] => held
+  | (acq, rel) :: rest => locksAfter (held + acq - rel) rest
+
+theorem balanced_history_holds_nothing (calls : List (Nat × Nat)) (h : ∀ c ∈ calls, c.1 = c.2) :
+    locksAfter 0 calls = 0 := by
+  induction calls with
+  | nil => rfl
+  | cons c rest ih =>
+    have hc : c.1 = c.2 := h c (by simp)
+    have hr : ∀ c ∈ rest, c.1 = c.2 := fun x hx => h x (by simp [hx])
+    simp [locksAfter, hc, ih hr]
+
+/-- non-vacuity / witness: one unbalanced call (a cache hit that keeps its read lock) leaves a lock held for ever -/
+example : locksAfter 0 [(1, 1), (1, 0), (1, 1)] = 1 := by decide
 
 /-- the rank behind `internalize_total`, function by function: a guarded function has rank 0, every other
     `deref…` function a rank above everything it calls -/
